@@ -50,7 +50,8 @@ float sb_get_travel_time_for_distance(float distance, float speed, float acceler
     float t1, t2, s1;
 
     /* We return infinite time for invalid input values */
-    if (distance < 0 || speed <= 0 || acceleration <= 0) {
+    if (!(distance >= 0) || !(speed > 0) || !(acceleration > 0)) {
+        /* also catches NaN */
         return INFINITY;
     }
 
